@@ -8,7 +8,6 @@ def main():
     os.makedirs(lib.CACHE, exist_ok=True)
     os.makedirs(lib.EVIDENCE, exist_ok=True)
     os.makedirs(lib.REPLAYS, exist_ok=True)
-    lib.write_coqproject()
     # build only the directories of the checks registered in MANIFEST.json (+ Common);
     # anything else is built on demand by its own check
     import json
